@@ -62,6 +62,18 @@ def _short(x, n=300):
     return s if len(s) <= n else s[:n - 3] + "..."
 
 
+class _StageFailed(object):
+    def __bool__(self):
+        return False
+    __nonzero__ = __bool__
+
+    def __repr__(self):
+        return "STAGE_FAILED"
+
+
+STAGE_FAILED = _StageFailed()
+
+
 class Ledger:
     def __init__(self, prop, tier, repo, explanation="", quiet=False):
         self.prop = prop
@@ -126,6 +138,18 @@ class Ledger:
             self.deficits.append(
                 "[%s] instance count below floor: %s: found %d, confirmed by "
                 "hand %d -- the rule would pass vacuously" % (rule, what, found, floor))
+
+    def stage(self, fn, *a, **kw):
+        """Run one rule group. An AnalysisError inside it is deferred: the other rule groups still run, a
+        violation recognised by any of them is reported (exit 1); without a violation the run ends as
+        ANALYSIS-ERROR (exit 2). Returns the group's result, or STAGE_FAILED."""
+        if any(x is STAGE_FAILED for x in a):
+            return STAGE_FAILED         # depends on a group that could not be analysed (already recorded)
+        try:
+            return fn(*a, **kw)
+        except AnalysisError as e:
+            self.deficits.append(str(e))
+            return STAGE_FAILED
 
     def assume(self, text):
         if text not in self.assumptions:
